@@ -17,12 +17,16 @@ func init() {
 		func(t *vcTrial) { vpRunGrid(t, 0) },
 		func(t *vcTrial) { vpRunGrid(t, 1) },
 		func(t *vcTrial) { vpRunKernel(t, 300, "unix") }, // crosses the 128 -> 256 -> 512 event array growth
+		vpRunHupReuse,
+		vpRunHupReuse,
 	}
 }
 
 func vcScenC11(t *vcTrial) {
 	r := t.R
 	switch r.intn(8) {
+	case 7:
+		vpRunHupReuse(t)
 	case 0:
 		vpRunGrid(t, r.intn(2))
 	case 1:
@@ -56,6 +60,8 @@ type vpDesc struct {
 	outAcked uint64
 	outBuf   []byte
 	selfDetachAt uint64 // detach from inside OnRead/InputAck once this many bytes were delivered (0: never)
+	hupDelay     time.Duration // OnHup takes this long (keeps the poller's hang-up goroutine busy)
+	hupStarted   int32
 }
 
 func (d *vpDesc) note(s string) {
@@ -115,6 +121,10 @@ func (d *vpDesc) install(p Poll) {
 	op.FD = d.fd
 	d.op = op
 	op.OnHup = func(Poll) error {
+		atomic.StoreInt32(&d.hupStarted, 1)
+		if d.hupDelay > 0 {
+			time.Sleep(d.hupDelay)
+		}
 		atomic.StoreInt32(&d.hupDet, atomic.LoadInt32(&op.detached))
 		if atomic.AddInt32(&d.hups, 1) == 1 {
 			d.note("hup")
@@ -880,4 +890,185 @@ func vpGridCell(t *vcTrial, flavour int, state string, ev uint32, npre int) (hup
 		d.op.Control(PollDetach)
 	}
 	return hup, outcome
+}
+
+// ------------------------------------------------------------------ (c) queued hang-ups vs. slot re-use
+
+// vpRunHupReuse: hang-ups are collected per batch and run one after the other on a separate
+// goroutine. While a slow OnHup keeps that goroutine busy, the owners of the descriptors queued
+// behind it release their slots (detach + Free), the poller finishes another batch (the slots
+// return to the free list) and new, healthy descriptors are registered on the same poller and
+// get those slots. A queued hang-up must stay the old descriptor's: the new ones are open and
+// idle and must never see OnHup.
+func vpRunHupReuse(t *vcTrial) {
+	r := t.R
+	t.P("variant", "queued-hangup-slot-reuse")
+	pl, err := openPoll()
+	if err != nil {
+		t.Inconclusive("openPoll: %v", err)
+		return
+	}
+	waitErr := make(chan error, 1)
+	go func() { waitErr <- pl.Wait() }()
+	mark := vcTraceMark()
+	var all []*vpDesc
+	defer func() {
+		for _, d := range all {
+			if d.fd >= 0 {
+				syscall.Close(d.fd)
+			}
+			if d.peer >= 0 {
+				syscall.Close(d.peer)
+			}
+		}
+		pl.Close()
+		select {
+		case <-waitErr:
+		case <-time.After(5 * time.Second):
+		}
+	}()
+	mk := func(id int, delay time.Duration) *vpDesc {
+		fd, peer, err := vpPair("unix")
+		if err != nil {
+			return nil
+		}
+		d := &vpDesc{id: id, fd: fd, peer: peer, flavour: r.intn(2), seed: r.next(), outSeed: r.next(), hupDelay: delay}
+		d.install(pl)
+		all = append(all, d)
+		if err := d.op.Control(PollReadable); err != nil {
+			return nil
+		}
+		return d
+	}
+	nslow, nvict := r.rng(1, 3), r.rng(1, 5)
+	var slow, vict []*vpDesc
+	for i := 0; i < nslow; i++ {
+		d := mk(i, time.Duration(r.rng(5, 30))*time.Millisecond)
+		if d == nil {
+			t.Inconclusive("setup")
+			return
+		}
+		slow = append(slow, d)
+	}
+	for i := 0; i < nvict; i++ {
+		d := mk(100+i, 0)
+		if d == nil {
+			t.Inconclusive("setup")
+			return
+		}
+		vict = append(vict, d)
+	}
+	// all peers hang up back to back: one batch (or two adjacent ones) carries all the hang-ups
+	for _, d := range append(append([]*vpDesc{}, slow...), vict...) {
+		syscall.Close(d.peer)
+		d.peer = -1
+	}
+	for dl := time.Now().Add(time.Second); time.Now().Before(dl); {
+		started := false
+		for _, d := range slow {
+			if atomic.LoadInt32(&d.hupStarted) != 0 {
+				started = true
+			}
+		}
+		if started {
+			break
+		}
+		time.Sleep(20 * time.Microsecond)
+	}
+	// the owners of the descriptors whose hang-up is still queued release them
+	freed := map[*FDOperator]bool{}
+	queued := 0
+	for _, d := range vict {
+		if atomic.LoadInt32(&d.hupStarted) == 0 && atomic.LoadInt32(&d.op.detached) > 0 {
+			queued++
+		}
+		d.op.Control(PollDetach)
+		d.op.Free()
+		freed[d.op] = true
+	}
+	// another poller iteration returns the slots to the free list
+	pl.Trigger()
+	for _, d := range vict {
+		vcWaitPoint(mark, vpOpFreeSplice, vcObjID(d.op), 200*time.Millisecond)
+	}
+	// healthy newcomers on the same poller
+	var fresh []*vpDesc
+	reused := 0
+	for i := 0; i < nvict+2; i++ {
+		d := mk(200+i, 0)
+		if d == nil {
+			t.Inconclusive("setup of a new descriptor")
+			return
+		}
+		if freed[d.op] {
+			reused++
+		}
+		fresh = append(fresh, d)
+	}
+	// let every queued hang-up run
+	for dl := time.Now().Add(5 * time.Second); time.Now().Before(dl); {
+		done := true
+		for _, d := range slow {
+			if atomic.LoadInt32(&d.hups) == 0 {
+				done = false
+			}
+		}
+		if done {
+			break
+		}
+		time.Sleep(100 * time.Microsecond)
+	}
+	time.Sleep(time.Duration(r.rng(1, 5)) * time.Millisecond)
+	for _, d := range fresh {
+		if h := atomic.LoadInt32(&d.hups); h != 0 {
+			t.Violate("C11", "spurious_hup", "a new, open and idle descriptor (slot re-used from a released one: %v) got %d hang-up report(s): a hang-up queued for the previous owner of its poller slot was delivered to it (slow hang-ups ahead in the queue: %d, descriptors released while queued: %d)", freed[d.op], h, nslow, queued)
+			return
+		}
+	}
+	for _, d := range vict {
+		if h := atomic.LoadInt32(&d.hups); h > 1 {
+			t.Violate("C11", "hup_twice", "a descriptor released while its hang-up was queued got %d hang-up reports", h)
+			return
+		}
+	}
+	// the newcomers are served
+	for _, d := range fresh {
+		b := make([]byte, 64)
+		vfFill(b, d.seed, 0)
+		syscall.Write(d.peer, b)
+	}
+	for dl := time.Now().Add(3 * time.Second); time.Now().Before(dl); {
+		ok := true
+		for _, d := range fresh {
+			if atomic.LoadUint64(&d.got) < 64 {
+				ok = false
+			}
+		}
+		if ok {
+			break
+		}
+		time.Sleep(100 * time.Microsecond)
+	}
+	for _, d := range fresh {
+		if b, _ := d.bad.Load().(string); b != "" {
+			t.Violate("C11", "input_order", "new descriptor after slot re-use: %s", b)
+			return
+		}
+		if atomic.LoadUint64(&d.got) < 64 && vcRunnerProgress(5, 5*time.Second) {
+			t.Violate("C11", "input_not_delivered", "a new descriptor registered on a re-used slot (%v) got %d of 64 readable bytes within 3s; hang-ups %d", freed[d.op], atomic.LoadUint64(&d.got), atomic.LoadInt32(&d.hups))
+			return
+		}
+	}
+	for _, d := range fresh {
+		d.op.Control(PollDetach)
+		d.op.Free()
+	}
+	for _, d := range slow {
+		d.op.Free()
+	}
+	t.Stat("hup_reuse_trials", 1)
+	t.Stat("slots_reused_after_release", reused)
+	t.Stat("released_while_hangup_queued", queued)
+	t.Nontrivial = reused > 0 && queued > 0
+	t.Sig = fmt.Sprintf("hupreuse|slow=%d|vict=%d|reused=%v|queued=%v", nslow, nvict, reused > 0, queued > 0)
 }
